@@ -14,6 +14,7 @@
 #include "cimba.h"
 #include "cmb_priorityqueue.h"
 #include <stdatomic.h>
+#include <sched.h>
 
 /* ---- side tables (indexed by trial number computed from the element address) */
 #define MAXTR 1024
@@ -119,6 +120,7 @@ static void run_sim(uint64_t seed, uint32_t len, struct res *out)
     w.pool = cmb_resourcepool_create(); cmb_resourcepool_initialize(w.pool, "P", 4);
     w.buf = cmb_buffer_create(); cmb_buffer_initialize(w.buf, "B", 10);
     w.cond = cmb_condition_create(); cmb_condition_initialize(w.cond, "C");
+    cmb_condition_subscribe(w.cond, &w.res->guard); cmb_resourceguard_register(&w.pool->guard, &w.cond->guard);     /* observer tags are per-thread pool objects too */
     w.oq = cmb_objectqueue_create(); cmb_objectqueue_initialize(w.oq, "OQ", 8);
     w.pq = cmb_priorityqueue_create(); cmb_priorityqueue_initialize(w.pq, "PQ", 8);
     if (!early) cmb_resource_start_recording(w.res);
@@ -202,7 +204,7 @@ static void run_qsim(uint64_t seed, uint32_t len, uint64_t tid)
     cmb_event_queue_terminate(); cmb_random_terminate();
     QW = NULL;
 }
-static _Atomic int q_mode;
+static _Atomic int q_mode; static int big_frames;
 
 /* ---- pollution: different per worker thread and per call, hence per schedule */
 static _Thread_local uint64_t tl_calls; static _Atomic uint64_t n_unpolluted_caches;
@@ -237,6 +239,15 @@ static void trial_func(void *vp)
     if (!in_seq) who_ran[i] = pthread_self();
     if (q_mode) { run_qsim(tseed[i], tlen[i], i); return; }
     pollute();
+    if (big_frames && (tseed[i] & 3) == 0) {
+        /* a trial function with a large automatic array (the header calls automatic variables safe): 2.4 MB of stack */
+        volatile double obs[300000];
+        for (int k = 0; k < 300000; k += 512) obs[k] = (double)(tseed[i] >> 40) + k;
+        run_sim(tseed[i], tlen[i], in_seq ? &res_seq[i] : &res_par[i]);
+        double acc = 0; for (int k = 0; k < 300000; k += 512) acc += obs[k] - k;
+        if (acc != (double)(tseed[i] >> 40) * 586.0) __atomic_fetch_add(&bad_pointer, 1, __ATOMIC_SEQ_CST);
+        return;
+    }
     run_sim(tseed[i], tlen[i], in_seq ? &res_seq[i] : &res_par[i]);
 }
 
@@ -249,7 +260,18 @@ void vr_case(uint64_t seed, uint64_t idx, int profile)
     ntrials = counts[vr_below(&r, profile == 1 ? 6 : 8)];
     if (profile == 1 && ntrials > 64) ntrials = 33;                 /* TSan build: keep it small */
     stride = sizes[vr_below(&r, 7)];
+    big_frames = vr_chance(&r, 1, 4);
+    bool pinned = false; cpu_set_t old_mask;
+    if (profile == 0 && idx % 8 == 5) {
+        /* the whole program confined to one processor (taskset -c 0, a one-core container): every trial still runs, on however many workers */
+        if (sched_getaffinity(0, sizeof old_mask, &old_mask) == 0) { cpu_set_t one; CPU_ZERO(&one); int c = vr_chance(&r, 1, 2) ? 0 : (int)vr_below(&r, 16); if (!CPU_ISSET(c, &old_mask)) c = 0; CPU_SET(c, &one); if (sched_setaffinity(0, sizeof one, &one) == 0) { pinned = true; VR_CNT("experiments_confined_to_one_processor"); } }
+    }
+    if (profile == 0 && !pinned && idx % 8 == 3) {
+        /* a trial array beyond 4 GiB: few elements of 1 GiB each (only the first bytes of each are ever touched) */
+        ntrials = 5 + vr_below(&r, 3); stride = (size_t)1 << 30; big_frames = 0; VR_CNT("experiments_with_trial_array_beyond_4GiB");
+    }
     arr = calloc(ntrials + 2, stride);
+    if (!arr) { vr_inconclusive("cannot allocate the trial array"); return; }
     int durmix = (int)vr_below(&r, 3);     /* 0 all short, 1 wide spread, 2 one very long first */
     for (uint64_t i = 0; i < ntrials; i++) { tseed[i] = vr_next(&r); tlen[i] = durmix == 0 ? 2 : (uint32_t)(1 + vr_below(&r, durmix == 1 ? 40 : 6)); }
     if (durmix == 2) tlen[0] = 150;
@@ -290,6 +312,7 @@ void vr_case(uint64_t seed, uint64_t idx, int profile)
             vr_violation("C19/result-differs", "trial %" PRIu64 "/%" PRIu64 " (seed %#" PRIx64 ", len %u): parallel hash %#" PRIx64 " events %" PRIu64 " fp %.17g/%.17g | sequential hash %#" PRIx64 " events %" PRIu64 " fp %.17g/%.17g",
                          i, ntrials, tseed[i], tlen[i], res_par[i].hash, res_par[i].events, res_par[i].fp[2], res_par[i].fp[3], res_seq[i].hash, res_seq[i].events, res_seq[i].fp[2], res_seq[i].fp[3]);
     }
+    if (pinned) sched_setaffinity(0, sizeof old_mask, &old_mask);
     vr_mark_nontrivial();
     if (idx % 7 == 0) vr_sample("trials=%" PRIu64 " element_size=%zu duration_mix=%d seq_first=%d workers_used=%d trials/worker max=%" PRIu64 " min=%" PRIu64, ntrials, stride, durmix, (int)seq_first, nseen, mx, mnn);
     free(arr);
